@@ -130,10 +130,14 @@ def hand(attrs, kwargs, aliases=(), params=(), tp=(), bounds=(), cid=None) -> st
 def extra_obligations():
     """small methods of `State` / `StateAttribute` regenerated from /repo's structure.py as MiniPy terms: `__setattr__` and
     `__delattr__` refuse with AttributeError whatever the arguments, `__copy__` / `__deepcopy__` return the instance itself,
-    `StateAttribute.validated` applies the validator exactly once - to the default iff the argument *is* MISSING"""
+    `StateAttribute.validated` applies the validator exactly once - to the default iff the argument *is* MISSING; and the
+    constructor `State.__init__` (a `for` loop over the declared attributes): every attribute validated exactly once, in
+    declaration order, with the keyword argument of its name or MISSING, the result stored under that name, the first
+    validation error propagating as that object"""
     from harness import core, regen
 
-    return [e for e in regen.check("stateobj", core.REPO, core.LEAN) if "validated_once" in e["name"]]
+    return [e for e in regen.check("stateobj", core.REPO, core.LEAN) if "validated_once" in e["name"]] + \
+        regen.check("stateinit", core.REPO, core.LEAN)
 
 
 def corpus():
